@@ -206,6 +206,8 @@ func reproduced(f *interp.Finding, r *nativeResult) bool {
 		return r.killed || strings.Contains(r.out, "stack overflow") || strings.Contains(r.out, "goroutine stack exceeds")
 	case "write":
 		return strings.Contains(r.out, "WRITE "+f.Label+":")
+	case "share":
+		return strings.Contains(r.out, "SHARE "+f.Label+":")
 	case "deadlock":
 		return r.killed || strings.Contains(r.out, "all goroutines are asleep")
 	}
